@@ -27,6 +27,16 @@ import (
 //	src_join_counter_bits     gateway_parallel.go: narrowest integer field of struct parallelGateway (int, uint = 64)
 //	src_join_counter_resets   ... a method of parallelGateway assigns 0 to such a field (the arrival counter starts
 //	                          again when the gateway fires, it does not run on)
+//	src_token_counter_never_set_back
+//	                          activity.go harness.run: the counter the tokens inside an activity are numbered from (a field
+//	                          incremented with ++) is never assigned to
+//	src_monitor_accumulator_is_local
+//	                          subprocess.go subProcess.ceaseFlowMonitor: the list of start events that have fired, which
+//	                          the monitor hands to startEventFired, is a variable declared inside the monitor's own
+//	                          function literal (made afresh for every activation), not a field that outlives it
+//	src_probing_key_is_the_id gateway_exclusive.go: the table in which the gateway remembers a token between its two
+//	                          requests (the map-typed field of struct exclusiveGateway) is keyed by the id type itself
+//	                          (id.Id), and every lookup indexes it with a flow's id as it stands (x.flowId, x.Id())
 //	src_setvariable_replaces  pkg/data/impl.go FlowDataLocator.SetVariable: a stored value is never written through
 //	                          (no assignment to a field of something that was read out of the variables table); the
 //	                          name is pointed at another value instead
@@ -40,6 +50,9 @@ type protoFacts struct {
 	JoinCounterBits     int
 	JoinCounterResets   bool
 	SetVariableReplaces bool
+	CounterNeverSetBack bool
+	AccumulatorIsLocal  bool
+	ProbingKeyIsTheId   bool
 }
 
 func findMethod(f *ast.File, recv, name string) *ast.FuncDecl {
@@ -272,6 +285,112 @@ func protocolFacts(c *factsCtx) (pf protoFacts) {
 			})
 		}
 	}
+	// --- activity.go: the token counter of the harness
+	if run := findMethod(c.parse("activity.go"), "harness", "run"); run != nil {
+		counters := map[string]bool{}
+		ast.Inspect(run.Body, func(n ast.Node) bool {
+			if inc, ok := n.(*ast.IncDecStmt); ok && inc.Tok == token.INC {
+				if se, ok := inc.X.(*ast.SelectorExpr); ok {
+					counters[se.Sel.Name] = true
+				}
+			}
+			return true
+		})
+		if len(counters) == 0 {
+			c.fail("protocol facts: harness.run increments no field (the token counter)")
+		}
+		assigned := false
+		if f := c.parse("activity.go"); f != nil {
+			ast.Inspect(f, func(n ast.Node) bool {
+				if as, ok := n.(*ast.AssignStmt); ok {
+					for _, l := range as.Lhs {
+						if se, ok := l.(*ast.SelectorExpr); ok && counters[se.Sel.Name] {
+							assigned = true
+						}
+					}
+				}
+				return true
+			})
+		}
+		pf.CounterNeverSetBack = len(counters) > 0 && !assigned
+	}
+	// --- subprocess.go: the completion monitor's accumulator
+	if mon := findMethod(c.parse("subprocess.go"), "subProcess", "ceaseFlowMonitor"); mon == nil {
+		c.fail("protocol facts: subProcess.ceaseFlowMonitor not found")
+	} else {
+		calls, local := 0, 0
+		ast.Inspect(mon.Body, func(n ast.Node) bool {
+			lit, ok := n.(*ast.FuncLit)
+			if !ok {
+				return true
+			}
+			ast.Inspect(lit.Body, func(m ast.Node) bool {
+				call, ok := m.(*ast.CallExpr)
+				if !ok {
+					return true
+				}
+				if id, ok := call.Fun.(*ast.Ident); ok && id.Name == "startEventFired" && len(call.Args) >= 2 {
+					calls++
+					if a, ok := call.Args[1].(*ast.Ident); ok && a.Obj != nil && lit.Pos() <= a.Obj.Pos() && a.Obj.Pos() <= lit.End() {
+						local++
+					}
+				}
+				return true
+			})
+			return false
+		})
+		if calls == 0 {
+			c.fail("protocol facts: subProcess.ceaseFlowMonitor does not call startEventFired inside its function literal")
+		}
+		pf.AccumulatorIsLocal = calls > 0 && local == calls
+	}
+	// --- gateway_exclusive.go: the probing table
+	if f := c.parse("gateway_exclusive.go"); f == nil {
+		c.fail("protocol facts: gateway_exclusive.go not found")
+	} else {
+		tables := map[string]string{} // field name -> key type
+		ast.Inspect(f, func(n ast.Node) bool {
+			ts, ok := n.(*ast.TypeSpec)
+			if !ok || ts.Name.Name != "exclusiveGateway" {
+				return true
+			}
+			if st, ok := ts.Type.(*ast.StructType); ok {
+				for _, fl := range st.Fields.List {
+					if mt, ok := fl.Type.(*ast.MapType); ok {
+						for _, nm := range fl.Names {
+							tables[nm.Name] = nodeText(c.fset, mt.Key)
+						}
+					}
+				}
+			}
+			return false
+		})
+		if len(tables) == 0 {
+			c.fail("protocol facts: struct exclusiveGateway has no map-typed field")
+		}
+		good := len(tables) > 0
+		for _, kt := range tables {
+			if kt != "id.Id" {
+				good = false
+			}
+		}
+		ast.Inspect(f, func(n ast.Node) bool {
+			ix, ok := n.(*ast.IndexExpr)
+			if !ok {
+				return true
+			}
+			if se, ok := ix.X.(*ast.SelectorExpr); ok {
+				if _, isTable := tables[se.Sel.Name]; isTable {
+					txt := nodeText(c.fset, ix.Index)
+					if !strings.HasSuffix(txt, ".flowId") && !strings.HasSuffix(txt, ".Id()") {
+						good = false
+					}
+				}
+			}
+			return true
+		})
+		pf.ProbingKeyIsTheId = good
+	}
 	// --- pkg/data/impl.go
 	if sv := findMethod(c.parse("pkg/data/impl.go"), "FlowDataLocator", "SetVariable"); sv == nil {
 		c.fail("protocol facts: FlowDataLocator.SetVariable not found in pkg/data/impl.go")
@@ -354,8 +473,8 @@ func protocolFacts(c *factsCtx) (pf protoFacts) {
 func init() {
 	factGens = append(factGens, func(c *factsCtx) {
 		pf := protocolFacts(c)
-		fmt.Fprintf(&c.out, "(* protocol facts read off the sources (harness/protocol.go) *)\nDefinition src_active_before_arm : bool := %v.\nDefinition src_termchan_capacity : nat := %d.\nDefinition src_termchan_table_kept : bool := %v.\nDefinition src_determination_is_cas : bool := %v.\nDefinition src_subprocess_registers : bool := %v.\nDefinition src_determination_flag_per_activation : bool := %v.\nDefinition src_join_counter_bits : N := %d%%N.\nDefinition src_join_counter_resets : bool := %v.\nDefinition src_setvariable_replaces : bool := %v.\n\n",
-			pf.ActiveBeforeArm, pf.TermChanCapacity, pf.TermChanTableKept, pf.DeterminationIsCAS, pf.SubProcessRegisters, pf.FlagPerActivation, pf.JoinCounterBits, pf.JoinCounterResets, pf.SetVariableReplaces)
+		fmt.Fprintf(&c.out, "(* protocol facts read off the sources (harness/protocol.go) *)\nDefinition src_active_before_arm : bool := %v.\nDefinition src_termchan_capacity : nat := %d.\nDefinition src_termchan_table_kept : bool := %v.\nDefinition src_determination_is_cas : bool := %v.\nDefinition src_subprocess_registers : bool := %v.\nDefinition src_determination_flag_per_activation : bool := %v.\nDefinition src_join_counter_bits : N := %d%%N.\nDefinition src_join_counter_resets : bool := %v.\nDefinition src_setvariable_replaces : bool := %v.\nDefinition src_token_counter_never_set_back : bool := %v.\nDefinition src_monitor_accumulator_is_local : bool := %v.\nDefinition src_probing_key_is_the_id : bool := %v.\n\n",
+			pf.ActiveBeforeArm, pf.TermChanCapacity, pf.TermChanTableKept, pf.DeterminationIsCAS, pf.SubProcessRegisters, pf.FlagPerActivation, pf.JoinCounterBits, pf.JoinCounterResets, pf.SetVariableReplaces, pf.CounterNeverSetBack, pf.AccumulatorIsLocal, pf.ProbingKeyIsTheId)
 	})
 	commands["protocol"] = func(env *Env) {
 		c := &factsCtx{repo: env.Repo, fset: token.NewFileSet()}
